@@ -25,3 +25,7 @@ pub fn memchr_model(x: u8, text: &[u8]) -> Option<usize> {
     while i < text.len() { if text[i] == x { return Some(i); } i += 1; }
     None
 }
+
+/// tokio's `read_exact` builds `io::Error::new(UnexpectedEof, "early eof")` (a boxed `dyn Error`, the known CBMC
+/// trap, probe #22); same kind without the box
+pub fn eof_simple() -> std::io::Error { std::io::Error::from(std::io::ErrorKind::UnexpectedEof) }
